@@ -60,6 +60,8 @@ static inline cstring *cstring__lit(const char *p) { g_lit.len = 5; g_lit.id = _
     if (g_exc) return 0; if (g_bt_finds < 1000) g_bt_finds++; g_bt_key = (void *)key; \
     if (!g_bt_present) return 0; \
     __CPROVER_assume(g_bt_pidx < s->n); *index = (unsigned int)g_bt_pidx; return 1; } \
+  static inline struct bt_##N *BlockTable_##N##__op_assign__p_bt_##N(struct bt_##N *d, struct bt_##N *s) { \
+    if (g_exc) return d; *d = *s; return d; }      /* btr.<T>.copy_assign: same entries, an index of its own */ \
   static inline unsigned int BlockTable_##N##__add(struct bt_##N *s, T *v) { \
     unsigned int r = 0; if (g_exc) return 0; \
     if (!BlockTable_##N##__find(s, v, &r)) r = BlockTable_##N##__add_value__p_##N(s, v); \
